@@ -78,7 +78,7 @@ ASSUME_D = [
 
 # property -> prog divergence kinds: (kind prefix, program kind or None)
 PROG_KINDS = {
-    "C02": [("evalorder", "flow"), ("args", "flow"), ("results", "flow"), ("calls", "flow"), ("order", "flow"), ("agree", None), ("topo", None), ("deps", None), ("cancel", "flow")],
+    "C02": [("static.tagsrun", None), ("evalorder", "flow"), ("args", "flow"), ("results", "flow"), ("calls", "flow"), ("order", "flow"), ("agree", None), ("topo", None), ("deps", None), ("cancel", "flow")],
     "C01": [("deps", None), ("order", None)],
     "C03": [("maxin", None), ("gids", None), ("oncaller", None)],
     "C04": [("crash", None), ("ret", None)],
@@ -89,12 +89,12 @@ PROG_KINDS = {
     "C09": [("ctxseen", None), ("cancel", None)],
     "C10": [("calls", "par"), ("args", "par"), ("ret", "par"), ("order", "par"), ("cancel", "par")],
     "C11": [("calls", "flow"), ("args", "flow"), ("results", "flow"), ("deps", None), ("order", "flow"), ("cancel", "flow")],
-    "C13": [("static.parses", None), ("static.typechecks", None), ("static.directives", None), ("toolpanic", None)],
+    "C13": [("static.tagsrun", None), ("static.parses", None), ("static.typechecks", None), ("static.directives", None), ("toolpanic", None)],
     "C14": [("accept", None), ("diag", None)],
     "C12": [("evalgoroutine", None), ("oncaller", None), ("static.shared", None)],
     "C15": [("evalorder", None), ("evalgoroutine", None), ("static.hygiene", None)],
     "C16": [("static.astdiff", None)],
-    "C17": [("static.deterministic", None)],
+    "C17": [("static.deterministic", None), ("static.tagsrun", None)],
     "C18": [("events", None)],
     "C20": [("static.sourcemap", None), ("modifier", None)],
 }
